@@ -82,6 +82,12 @@ Theorem manual_throttle : forall iv ops t0 m, (0 <= iv)%Z ->
   Forall (fun t => t0 + iv <= t)%Z (adv_times iv (manual_init t0 iv m) t0 ops).
 Proof. intros iv ops t0 m H. destruct (adv_times_spaced iv H ops (manual_init t0 iv m) t0) as [F S]. split; assumption. Qed.
 Print Assumptions manual_throttle.
+(* adv_times are exactly the times at which advance() draws: an advance at time now adds one frame iff the interval is over *)
+Theorem manual_advance_draws_iff_interval_over : forall iv s now,
+  m_frames (manual_step iv s now MAdvance) =
+  if (now <? m_upd s)%Z then m_frames s else m_frames s ++ [Some (frame (S (m_cur s)) (m_msg s))].
+Proof. exact advance_redraws. Qed.
+Print Assumptions manual_advance_draws_iff_interval_over.
 (* ... and every frame is one indicator value followed by the message current at that time: the frames are append-only;
    the operation after any history ops1 adds nothing (an advance before the interval is over), or the frame of the
    state it leaves - position m_cur, message m_msg - (and the line break, for finish); and that message is the one most
